@@ -325,12 +325,11 @@ class VarInt64(AbstractType[int]):
 
     @classmethod
     def encode(cls, value: int) -> bytes:
-        # bring it in line with the java binary repr
-        value &= 0xFFFFFFFFFFFFFFFF
-        v = (value << 1) ^ (value >> 63)
+        # zig-zag as in java: (n << 1) ^ (n >> 63) with an arithmetic shift
+        v = ((value << 1) ^ (value >> 63)) & 0xFFFFFFFFFFFFFFFF
         ret = b""
         while (v & 0xFFFFFFFFFFFFFF80) != 0:
-            b = (value & 0x7F) | 0x80
+            b = (v & 0x7F) | 0x80
             ret += struct.pack("B", b)
             v >>= 7
         ret += struct.pack("B", v)
